@@ -744,6 +744,7 @@ class LaneTranslator:
                 if v[0] in ("expr", "cond"):
                     self.input_src.setdefault(name, []).append(" ".join(t[1] for t in v[1]))
         results = []
+        all_scalars = set()
         for out in outputs:
             self.lets, self.memo, self.names = [], {}, {}
             self.used_inputs, self.used_scalars = [], []
@@ -752,11 +753,17 @@ class LaneTranslator:
                 node = node.extra
             if node.kind != "vec":
                 raise Unsupported(f"output {out} is not a lane value ({node.kind})")
-            args = [i for i in self.inputs if i in self.used_inputs] + \
-                   [p for p in self.scalar_params if p in self.used_scalars]
+            results.append((out, list(self.lets), node.text, list(self.used_inputs)))
+            all_scalars.update(self.used_scalars)
+        # argument list of an output: the declared inputs its DAG reads (declared order), then every
+        # scalar parameter read by ANY output of this entry (parameter order) -- the scalar part is
+        # the same for all outputs so that which parameter feeds which mask stays visible
+        final = []
+        for out, lets, text, used in results:
+            args = [i for i in self.inputs if i in used] + [p for p in self.scalar_params if p in all_scalars]
             args = [a + "_v" if a in self.LEAN_RESERVED else a for a in args]
-            results.append((out, list(self.lets), node.text, args))
-        return results
+            final.append((out, lets, text, args))
+        return final
 
     def output_node(self, out, trailing, end_pos):
         parts = out.split(".")
